@@ -111,6 +111,21 @@ CHECKS.update({
         "equal the terminal state the specification reaches for that configuration (invariant ObservationOK in conform mode).",
    note="Trusted: TLC; the classification of the program files (by construction); the observation regexes. Known finding K3 is the only admitted panic.",
    technique="TLA+ specification of the CLI pipeline (Cli.tla) model-checked over all configurations + TLC conformance check of recorded invocations of the built binary"),
+ "C19": dict(cat="model_checking", design="DESIGN.md 5 C19", engine="Host",
+   text="Host.tla models what survives a run inside one host process (parked goroutines, heartbeat / monitor loops, per-run objects) and states Isolation, "
+        "FreshObjects, OutcomeIsFunctionOfProgram and HostSurvives, checked by TLC over all histories up to the bound; the ways isolation was or could be "
+        "broken are named deviation actions (late checker goroutine of the pinned commit, a shared definition table) which TLC rejects. Real histories - "
+        "sequences of parse / typecheck / run jobs executed by ONE driver process, over a pool of accepted, rejected, unparseable, internally failing and "
+        "name-sharing programs in all three execution modes - are validated against the outcomes measured alone in fresh processes (invariant HistoryOK).",
+   note="Trusted: TLC; the driver's result records. Bounded: pool of 15 programs, seeded histories (length <= 6 quick / 9 thorough) plus ordered pairs.",
+   technique="TLA+ specification of run isolation (Host.tla) model-checked over histories + TLC conformance check of real in-process histories against fresh-process outcomes"),
+ "C14": dict(cat="model_checking", design="DESIGN.md 5 C14",
+   text="Generated program trees (tools/pgen.py) are rendered under several naming schemes (unique spellings, per-declaration spellings, re-use of consumed "
+        "spellings, spellings of other declarations' channels, renamed / cross-namespace type, function and label names, self vs bound provider name) and "
+        "declaration orders; all renderings are alpha-equivalent. Sax.tla and GritsRT.tla are evaluated on the dump of every rendering (the reference outcome "
+        "must be identical within a group, which guards the oracle); the real typechecker must give all renderings of a tree (well-typed and ill-typed trees) "
+        "the same verdict and the real interpreter the same printed multiset and completion status in every mode.",
+   note=RT_NOTE, technique="TLA+ reference semantics evaluated on alpha-equivalent renderings (model-level invariance) + metamorphic conformance of the real typechecker / interpreter"),
 })
 
 REASON_TODO = "check not built yet (build in progress, see DESIGN.md section 9)"
@@ -138,6 +153,8 @@ def main():
               "kind_free_text": "TLA+ specification of the Typecheck caller/worker protocol (intended and as-written variants); TcProtoTrace.tla validates hook logs"},
              {"name": "Cli", "path": "spec/Cli.tla", "serves_properties": ["C18"],
               "kind_free_text": "TLA+ specification of the command line pipeline; model mode (all configurations) and conform mode (recorded invocations)"},
+             {"name": "Host", "path": "spec/Host.tla", "serves_properties": ["C19"],
+              "kind_free_text": "TLA+ specification of run isolation inside one host process; model mode (histories) and conform mode (recorded histories)"},
              {"name": "Scanner", "path": "spec/Scanner.tla", "serves_properties": ["C11", "C12"],
               "kind_free_text": "TLA+ state machine of the hand-written scanner over character classes; TLC enumerates all short inputs"},
              {"name": "vworker", "path": "harness/cmd/vworker", "serves_properties": ["C08", "C09", "C10", "C11", "C12", "C15", "C16", "C17"],
